@@ -197,11 +197,7 @@ impl Allocator {
     self.verif_quiescent();
 
     // create own store of allocation
-    #[cfg(feature = "verif")]
-    let verif_managed = crate::verif::ManagedAlloc::enter();
     let result = data.alloc();
-    #[cfg(feature = "verif")]
-    drop(verif_managed);
     let handle = result.handle;
     let reference = result.reference;
 
@@ -238,11 +234,7 @@ impl Allocator {
     self.verif_quiescent();
 
     // create own store of allocation
-    #[cfg(feature = "verif")]
-    let verif_managed = crate::verif::ManagedAlloc::enter();
     let result = data.alloc();
-    #[cfg(feature = "verif")]
-    drop(verif_managed);
     let obj = result.reference;
 
     // push onto heap
